@@ -6,6 +6,26 @@ HERE = os.path.dirname(os.path.dirname(os.path.abspath(__file__)))
 PROPS = [json.loads(l)['id'] for l in open(os.path.join(HERE, 'properties.jsonl'))]
 
 CHECKS = {
+ 'C15': dict(category='proof', design_ref='DESIGN.md section 4 (C15)',
+    text='The real unicode_to_p8scii loop is proved (loop invariant: cursor at a glyph boundary, decoded prefix == original '
+         'bytes; termination variant) to return bs for EVERY text that is a concatenation of table spellings of a byte string '
+         'bs of any length, and p8scii_to_unicode is proved to return exactly that concatenation; the three table facts the '
+         'proof uses (width table, reverse map, spelling length) plus distinctness, prefix-freeness and UTF-8 encodability '
+         'are closed obligations evaluated exhaustively on the real 256-entry tables on every run.',
+    note='Trusted: pyvc VC generator, z3 with quantified axioms (concatenation model of str.join with an induction-proved '
+         'monotonicity lemma; dict lookups as functions of the key). The exhaustive native run over all 65,536 byte pairs '
+         'is a finite ground obligation, not the basis of the all-lengths claim.',
+    technique='contract-based deductive verification (loop invariant over the real loop, z3) + exhaustive ground lemmas on the real tables'),
+ 'C16': dict(category='proof', design_ref='DESIGN.md section 4 (C16)',
+    text='Writers and readers of every .p8 section (gfx, gff/map generic hex, sfx, music) and the .p8.png pack/unpack are '
+         'each proved, for all region contents / all in-format rows / all label images, against ONE independent format '
+         'specification (specs/p8spec.py) -- so a mistake shared by writer and reader fails both. The specification itself is '
+         'checked on every run against the carts PICO-8 saved as both .p8 and .p8.png (PNG pixels -> bytes -> text must '
+         'reproduce PICO-8\'s own text).',
+    note='Trusted: pyvc VC generator (builtin models of format/int/fromhex/rstrip cross-checked against CPython over their '
+         'whole finite domain every run), z3. Cart image geometry fixed at 160x205 RGBA8. Map.from_lines/from_bytes wrappers '
+         'and the slicing/join inside the file-level functions are not under contract here.',
+    technique='contract-based deductive verification against an independent format spec (pyvc VCs, z3 QF_UFBV/LIA) + ground spec sanity'),
  'C17': dict(category='proof', design_ref='DESIGN.md section 4 (C17)',
     text='Every accessor of Gfx/Map/Gff/Sfx/Music (except Map.get_rect_pixels) is under a contract whose postcondition '
          'equates the WHOLE region contents after the call with a plain model of the documented semantics (so the frame '
